@@ -126,8 +126,10 @@ Definition tokens_justified (g : cfg) (cl : list client) (gt : store) (cr : cred
    client [cid] presents device code [dc] at time [now] *)
 Definition promised (gt : store) (cid dc : string) (now : Z) (f : fault) (code : string) : bool :=
   match f with
-  | FDeadline => String.eqb code "slow_down"            (* storage time-out *)
-  | FError => true                                      (* storage failure: any refusal *)
+  | FFail e =>
+      (* storage time-out - whatever shape the storage gives that error, as long as
+         its cause is the deadline: slow_down; another storage failure: any refusal *)
+      if is_deadline e then String.eqb code "slow_down" else true
   | FNone =>
       match find_dev gt dc with
       | None => true                                    (* unknown code: any refusal *)
